@@ -160,23 +160,46 @@ func c10ParseCache(ctx *core.Ctx, cc *CC) {
 			ci = i
 		}
 	}
-	for _, fn := range cc.Fns {
-		if fn.Pkg != pf.Pkg || fn == pf {
-			continue
+	// where the cache comes from: follow a parameter back to the call sites of
+	// its function (the recursion may go through helpers that pass it on)
+	type site struct {
+		fn  *ssa.Function
+		idx int
+	}
+	seen := map[site]bool{}
+	var roots func(f *ssa.Function, idx int)
+	roots = func(f *ssa.Function, idx int) {
+		if seen[site{f, idx}] {
+			return
 		}
-		for _, c := range ssax.Calls(fn) {
-			if c.Static != pf || ci >= len(c.Common.Args) {
+		seen[site{f, idx}] = true
+		for _, fn := range cc.Fns {
+			if fn.Pkg != pf.Pkg {
 				continue
 			}
-			arg := ssax.Strip(c.Common.Args[ci])
-			_, fresh := arg.(*ssa.MakeMap)
-			if mm, ok := arg.(*ssa.MakeMap); ok && mm.Parent() != fn {
-				fresh = false
+			for _, c := range ssax.Calls(fn) {
+				if c.Static != f || idx >= len(c.Common.Args) {
+					continue
+				}
+				arg := ssax.Strip(c.Common.Args[idx])
+				if par, isPar := arg.(*ssa.Parameter); isPar {
+					for j, q := range fn.Params {
+						if q == par {
+							roots(fn, j) // handed on: judged where it enters
+						}
+					}
+					continue
+				}
+				mm, fresh := arg.(*ssa.MakeMap)
+				if fresh && mm.Parent() != fn {
+					fresh = false
+				}
+				ctx.Check(fresh, "C10.R8", QName(fn)+" › the parse cache is made for this parse", cc.IPos(c.Instr), "map literal / make at the call",
+					"the cache handed to the recursive parser ("+arg.String()+") outlives the parse: a file that was parsed before is never read again, so the model no longer reflects the text — an IDL edited or generated during the run, or included by a later file, is seen in its old state (or rejected for a type it now declares)")
 			}
-			ctx.Check(fresh, "C10.R8", QName(fn)+" › the parse cache is made for this parse", cc.IPos(c.Instr), "map literal / make at the call",
-				"the cache handed to the recursive parser ("+arg.String()+") outlives the parse: a file that was parsed before is never read again, so the model no longer reflects the text — an IDL edited or generated during the run, or included by a later file, is seen in its old state (or rejected for a type it now declares)")
 		}
 	}
+	roots(pf, ci)
 }
 
 // dependsOn: is target in the backward data slice of v (through operands of
